@@ -302,6 +302,9 @@ pub enum HKind {
     Mul,
     Low,
     Const,
+    /// the key itself (plus the seed): neighbouring keys land in neighbouring buckets, so removals leave holes
+    /// and tombstones inside long runs of full buckets
+    Id,
 }
 #[derive(Clone, Debug)]
 pub struct VBuild {
@@ -341,6 +344,7 @@ impl Hasher for VHasher {
             }
             HKind::Low => (self.acc.wrapping_add(self.seed)) % 8,
             HKind::Const => self.seed,
+            HKind::Id => self.acc.wrapping_add(self.seed),
         }
     }
 }
